@@ -416,7 +416,10 @@ def report(prop, tier, seed, mod, hs, agg, wall, timed_out):
                         "with no truncation and no solver unknown"),
         assumptions=meta.get("assumptions", []),
         wall_s=round(wall, 2), violations=len(vio_paths))
-    with open(os.path.join(ROOT, "evidence", f"{prop}.json"), "w") as f:
+    # experiments against a scratch copy of the repository (PSV_REPO set to something else than /repo) keep their evidence apart
+    ev_dir = os.path.join(ROOT, "evidence") if os.path.realpath(REPO) == "/repo" else os.path.join(ROOT, "replays", "scratch-evidence")
+    os.makedirs(ev_dir, exist_ok=True)
+    with open(os.path.join(ev_dir, f"{prop}.json"), "w") as f:
         json.dump(evidence, f, indent=1)
     print(f"[{prop} {tier}] paths={st.get('paths', 0)} decisions={st.get('decisions', 0)} obligations={st.get('obligations', 0)} "
           f"discharged={st.get('discharged', 0)} queries={st.get('queries', 0)} solver_s={st.get('solver_s', 0):.1f} "
